@@ -40,6 +40,14 @@ def species_objects(names, rng=None, mode='mixed'):
     from pymatgen.core import Element, Species
 
     OX = {'Li': 1, 'Na': 1, 'Ag': 1, 'S': -2, 'O': -2, 'P': 5, 'Si': 4, 'B': 3, 'H': 1}
+    if mode == 'valence':
+        # mixed valence: every atom gets its own variant of its symbol (Element, neutral or charged Species)
+        out = []
+        for n in names:
+            ox = OX.get(n, 1)
+            k = int(rng.integers(4))
+            out.append([Element(n), Species(n), Species(n, ox), Species(n, ox + 1)][k])
+        return out
     out = []
     # oxidation states are decided per symbol, so that equal symbols stay equal species objects
     charged = {n: (rng is not None and mode in ('species', 'mixed') and rng.uniform() < 0.25) for n in dict.fromkeys(names)}
